@@ -465,6 +465,22 @@ class PCBO(PUBO):
             for k, v in args[0]._constraints.items():
                 self._constraints.setdefault(k, []).extend(v)
 
+    # override
+    def __imul__(self, other):
+        """imul.
+
+        Define the multiplication ``self *= other``. Multiplying by a dict
+        rebuilds the model through ``clear``; the ancilla counter is kept so
+        that constraints added afterwards do not reuse the names of the
+        ancillas that are still present in the model.
+
+        """
+        ancilla = self._ancilla
+        # use self.__class__ here because PCSO uses this code as well.
+        super(self.__class__, self).__imul__(other)
+        self._ancilla = ancilla
+        return self
+
     @property
     def constraints(self):
         """constraints.
